@@ -11,6 +11,8 @@ func TestVerifReplay(t *testing.T) {
 		"VerifC01Quick":    VerifC01Quick,
 		"VerifC01Thorough": VerifC01Thorough,
 		"VerifC17Walks":    VerifC17Walks,
+		"VerifC03Quick":    VerifC03Quick,
+		"VerifC03Thorough": VerifC03Thorough,
 		"VerifC02TxQuick":    VerifC02TxQuick,
 		"VerifC02TxThorough": VerifC02TxThorough,
 		"VerifC01Deep":     VerifC01Deep,
